@@ -19,7 +19,7 @@ PRELUDE = '''
 from dataclasses import dataclass
 from typing import Annotated, ClassVar, Optional, Protocol
 import pyarrow as pa
-from vgi_rpc.rpc import AnnotatedBatch, CallContext, ExchangeState, OutputCollector, ProducerState, RpcServer, Stream
+from vgi_rpc.rpc import AnnotatedBatch, CallContext, ExchangeState, OutputCollector, ProducerState, RpcServer, Stream, StreamState
 from vgi_rpc.utils import ArrowSerializableDataclass, ArrowType
 
 
@@ -73,6 +73,22 @@ class X2(ExchangeState):
     def exchange(self, input: AnnotatedBatch, out: OutputCollector, ctx: CallContext) -> None:
         out.emit(input.batch)
 
+
+@dataclass
+class R1(StreamState):
+    n: int = 0
+
+    def process(self, input: AnnotatedBatch, out: OutputCollector, ctx: CallContext) -> None:
+        out.finish()
+
+
+@dataclass
+class R2(StreamState):
+    label: str = ""
+
+    def process(self, input: AnnotatedBatch, out: OutputCollector, ctx: CallContext) -> None:
+        out.finish()
+
 '''
 
 
@@ -96,7 +112,8 @@ def _ret(m: dict) -> str:
         return "None"
     if k == "unary_ret":
         return _ann(m["ret"]["t"], m["ret"]["nul"])
-    state = {"producer": {"s1": "P1", "s2": "P2"}, "exchange": {"s1": "X1", "s2": "X2"}}[k][m["st"]]
+    state = {"producer": {"s1": "P1", "s2": "P2"}, "exchange": {"s1": "X1", "s2": "X2"},
+             "rawstream": {"s1": "R1", "s2": "R2"}}[k][m["st"]]
     return f"Stream[{state}]" if m["hdr"] == "none" else f"Stream[{state}, {m['hdr'].upper()}]"
 
 
